@@ -303,14 +303,14 @@ theorem readInetAddr_RT (ip : Bytes) (hv : validIp ip) (b : Bytes) (hw : writeIn
     rfl
   | none =>
     rw [h4] at hw
-    have hw := Res.ok_inj hw
     have h16 : ip.length = 16 := by
       rcases hv with h | h
       · rw [to4, if_pos h] at h4; cases h4
       · exact h
     have ht : to16 ip = some ip := by
       rw [to16, if_neg (by omega), if_pos h16]
-    rw [ht] at hw
+    simp only [ht] at hw
+    have hw := Res.ok_inj hw
     rw [← hw, readInetAddr, List.append_assoc, bind_ok (readByte_RT 16 (by decide) _), if_neg (by decide), if_pos rfl]
     exact take_RT 16 ip rest h16
 
@@ -332,10 +332,23 @@ theorem writeInetAddr_len (ip : Option Bytes) (hv : ∀ x, ip = some x → valid
         · rw [to4, if_pos h] at h4; cases h4
         · exact h
       have ht : to16 x = some x := by rw [to16, if_neg (by omega), if_pos h16]
-      rw [ht] at hw
+      simp only [ht] at hw
       rw [← Res.ok_inj hw, List.length_append, writeByte_len]
       show _ = Res.ok (1 + x.length)
       rw [h16]; rfl
+
+/-- the writer refuses no address of a legal length -/
+theorem writeInetAddr_ok (ip : Bytes) (hv : validIp ip) : ∃ b, writeInetAddr (some ip) = .ok b := by
+  rw [writeInetAddr]
+  cases h4 : to4 ip with
+  | some b4 => exact ⟨_, rfl⟩
+  | none =>
+    have h16 : ip.length = 16 := by
+      rcases hv with h | h
+      · rw [to4, if_pos h] at h4; cases h4
+      · exact h
+    have ht : to16 ip = some ip := by rw [to16, if_neg (by omega), if_pos h16]
+    simp only [ht]; exact ⟨_, rfl⟩
 
 def canonInet (i : Inet) : Inet := { addr := i.addr.map canonIp, port := i.port }
 
